@@ -238,8 +238,10 @@ def build_driver(ctx):
     if not ctx.ocaml(exd, ['c25views.mli', 'c25views.ml', 'C25_views_drv.ml'], 'drv'): return None
     return os.path.join(exd, 'drv')
 
+REPAIRED = []     # ['repaired'] when MatrixHelper.cpp has the repair of patches/C25_owner_vector_helper_resize.diff; passed to the model driver
+
 def run_both(ctx, text, drv, exe):
-    rc1, o1, e1 = sh([drv], input=text, timeout=1200)
+    rc1, o1, e1 = sh([drv] + REPAIRED, input=text, timeout=1200)
     rc2, o2, e2 = sh([exe], input=text, timeout=1200)
     for _ in range(3):            # the shared libraries may be in the middle of a relink by a concurrent bin/build_repo
         if rc2 != 127: break
@@ -301,6 +303,10 @@ def part(ctx, harness_future=None):
     drv = build_driver(ctx)
     if not drv:
         ctx.broken.append(('extraction:C25_views', 'views model does not extract / driver does not build')); return
+    # which of the two proved variants of the model describes the source
+    if 'resizeOwnerOutOfVectorRep' in open(os.path.join(REPO, 'SimTKcommon/BigMatrix/src/MatrixHelper.cpp')).read():
+        REPAIRED.append('repaired'); ctx.notes.append('MatrixHelper.cpp has resizeOwnerOutOfVectorRep: repaired model variant used')
+    ctx.extra['views_model_variant'] = 'repaired=true' if REPAIRED else 'repaired=false (MatrixHelper.cpp as it is)'
     # ---------------- corpus + random valid chains + chains with out-of-range requests
     seqs = []
     cdir = os.path.join(VERIF, 'corpus', 'C25')
@@ -335,8 +341,8 @@ def part(ctx, harness_future=None):
     dseqs = [WITNESS] + [gen_defect(ctx.rng, ctx.rng.choice(['d', 'f', 'c', 'v']))[0] for _ in range(40 if not thorough else 400)]
     rcw, ow, ew = sh([exe], input='\n'.join(WITNESS) + '\n', timeout=60)
     ctx.extra['views_refuted_witness_on_implementation'] = [l for l in ow.split('\n') if l.startswith('E 2:')][-1:]
-    if ctx.extra['views_refuted_witness_on_implementation'] != ['E 2: 11 13 13 12']:
-        ctx.notes.append('the witness of C25_assign_to_copied_column_block_refuted no longer gives [11 13; 13 12] on the implementation')
+    if ctx.extra['views_refuted_witness_on_implementation'] != (['E 2: 11 12 13 14'] if REPAIRED else ['E 2: 11 13 13 12']):
+        ctx.notes.append('the witness of C25_assign_to_copied_column_block_refuted gives %s on the implementation' % ctx.extra['views_refuted_witness_on_implementation'])
     nops2, dis2, refs2 = compare_stream(ctx, 'defect', dseqs, drv, exe)
     ctx.add_cases(nops2, len(set(l for s in dseqs for l in s)))
     ctx.extra['views_known_defect_chains'] = {'chains': len(dseqs), 'operations': nops2, 'chains_with_ref_mismatch': len(set(i for i, _ in refs2))}
@@ -345,9 +351,9 @@ def part(ctx, harness_future=None):
         ctx.broken.append(('correspondence:C25views:defect', 'model and implementation differ in known-defect chain %d at output line %d: model=%r impl=%r | %s' % (i, j, a, b, ' ; '.join(dseqs[i])[:300])))
     if refs2:
         i, l = refs2[0]
-        ctx.report(KNOWN_KEY, 'a Matrix_ deep-copied from a one-column/one-row block keeps a vector helper; giving it a two-dimensional size aliases its elements: ' + l[:300],
+        ctx.report('impl:repair-incomplete-owner-vector-helper' if REPAIRED else KNOWN_KEY, 'a Matrix_ deep-copied from a one-column/one-row block keeps a vector helper; giving it a two-dimensional size aliases its elements: ' + l[:300],
                    {'failing_input': dseqs[i], 'replay_cmd': 'printf "%s\\n" | %s -v' % ('\\n'.join(dseqs[i]), exe), 'first_ref_line': l[:1000]})
-    else:
+    elif not REPAIRED:
         ctx.notes.append('known finding %s no longer reproduces on %d chains' % (KNOWN_KEY, len(dseqs)))
     # ---------------- SymMat packed index map
     symdrv = os.path.join(os.path.dirname(drv), 'symdrv.ml')
